@@ -654,7 +654,11 @@ func main() {
 				agg["udp_barrier_timeouts"] += int64(res.UDPTimeouts)
 				agg["missing_excused_by_stream_write_error"] += int64(res.Excused)
 				agg["received_but_written_outside_play_window"] += int64(res.OldPackets)
-				agg["tap_frames_checked"] += int64(res.TapFrames)
+				agg["http_tunnel_handshake_retries"] += int64(res.TunnelRetries)
+			if cs.Cfg.Dir == dirStream {
+				agg["received_but_written_outside_play_window_stream_dir"] += int64(res.OldPackets)
+			}
+			agg["tap_frames_checked"] += int64(res.TapFrames)
 				agg["ssrc_comparisons"] += int64(res.SSRCChecked)
 				if res.TapSkipped != "" {
 					agg["tap_skipped_cases"]++
@@ -725,9 +729,9 @@ func main() {
 	runPhase(ph1)
 	// phase 2: two-reader placements, one configuration after the other while the time budget lasts (the
 	// budget only decides how much is enumerated; it is recorded as a cap, never as a verdict)
-	budget := 100 * time.Second
+	budget := 90 * time.Second
 	if thorough {
-		budget = 800 * time.Second
+		budget = 780 * time.Second
 	}
 	units := float64(n1) + float64(nSeq)/4 + 1
 	perCase := time.Since(t1).Seconds() / units
